@@ -9,3 +9,8 @@ s = s.replace("name=cloned_", "name=copied_").replace("fn cloned_", "fn copied_"
 s = s.replace("X.cloned()", "X.copied()").replace("clone of", "copy of").replace("clones of", "copies of")
 s = s.replace("kani/copied.rs is derived from this file (tools/mk_copied_harness.py).", "DERIVED from kani/cloned.rs by tools/mk_copied_harness.py -- do not edit.")
 open(os.path.join(d, 'kani/copied.rs'), 'w').write(s)
+b = open(os.path.join(d, 'kani/clonedbuf.rs')).read()
+b = b.replace("cloned_buffered_chunk.rs", "copied_buffered_chunk.rs").replace("vk_clonedbuf", "vk_copiedbuf").replace("ClonedBufferedChunk", "CopiedBufferedChunk")
+b = b.replace("clonedbuf_size", "copiedbuf_size").replace("cloned() adaptor", "copied() adaptor")
+b = b.replace("kani/copiedbuf.rs is derived from this file (tools/mk_copied_harness.py).", "DERIVED from kani/clonedbuf.rs by tools/mk_copied_harness.py -- do not edit.")
+open(os.path.join(d, 'kani/copiedbuf.rs'), 'w').write(b)
